@@ -322,6 +322,14 @@ Theorem C12_callbacks_%(mod)s_explicit : forall s, Inv (Bty fwidth) s -> forall 
     (opcode = 66 -> tC = wdm ++ [EvR a1 v; EvR a opcode] /\\ get f_WDM s' = v).
 Proof. exact C12_callbacks_%(mod)s. Qed.
 
+(* together with C08: the step does not panic AND satisfies the clause *)
+Corollary C12_callbacks_safe_%(mod)s : forall s, Inv (Bty fwidth) s ->
+  safe (fun _ s' => callbacks_clause f_PPC f_PRK f_WDM s s' /\\ Inv (Bty fwidth) s') (Step s).
+Proof.
+  intros s Hi. pose proof (C08_%(mod)s.C08_step_%(mod)s s Hi) as H8. pose proof (C12_callbacks_%(mod)s s Hi) as Hc.
+  destruct (Step s) as [r s'|]; [|exact H8]. split; [exact (Hc r s' eq_refl) | exact H8].
+Qed.
+
 (* the last sentence of the property as worded: whenever the WDM callback ran in a step (it is then the newest recorded
    event) it received exactly the byte just read from the operand address PBR:PC+1 (in-bank wrap); the WDM field holds it *)
 Theorem C12_callbacks_wdm_%(mod)s : forall s, Inv (Bty fwidth) s -> forall r s', Step s = Ok r s' ->
@@ -392,6 +400,6 @@ Example ex_step : exists pushes, ex_obs =
   /\\ cbs pushes = [] /\\ onpc ex_state 4660 = true /\\ onpc ex_state 32768 = false.
 Proof. eexists. split; [vm_compute; reflexivity|]. split; [reflexivity|]. split; reflexivity. Qed.
 
-Definition C12_callbacks_all_%(mod)s := (C12_callbacks_%(mod)s, C12_callbacks_%(mod)s_explicit, C12_callbacks_wdm_%(mod)s, C12_callbacks_run_%(mod)s, ex_good, ex_step).
+Definition C12_callbacks_all_%(mod)s := (C12_callbacks_%(mod)s, C12_callbacks_%(mod)s_explicit, C12_callbacks_safe_%(mod)s, C12_callbacks_wdm_%(mod)s, C12_callbacks_run_%(mod)s, ex_good, ex_step).
 Print Assumptions C12_callbacks_all_%(mod)s.
 """
